@@ -27,7 +27,7 @@ PINNED_ENV = {
 }
 
 EXIT_OK, EXIT_VIOLATION, EXIT_HARNESS = 0, 1, 2
-CAMPAIGN_WALL = {"quick": 420.0, "thorough": 4200.0}
+CAMPAIGN_WALL = {"quick": 420.0, "thorough": 4000.0}
 
 
 # --------------------------------------------------------------------------------------
@@ -362,7 +362,7 @@ def _worker_loop(engine, tier, seed, indices, run_timeout, want_logs):
     # impulse trains).  The VIOLATION lines found so far must still come out before the command's outer timeout,
     # so a worker stops starting runs when its wall budget is spent or when runs keep timing out; whatever was
     # not executed is reported as HARNESS-ERROR (exit 2 unless a violation was found: then exit 1).
-    wall_budget = float(os.environ.get("VERIF_CAMPAIGN_S") or CAMPAIGN_WALL.get(tier, 600.0))
+    wall_budget = float(os.environ.get("VERIF_CAMPAIGN_S") or getattr(engine, "CAMPAIGN_WALL", CAMPAIGN_WALL).get(tier, 600.0))
     t_start = time.monotonic()
     timeouts = 0
     for n_done, i in enumerate(indices):
